@@ -6,7 +6,7 @@
    default binder, literal folding and sugar vs spelled-out literals concern the
    wbnf parser and the compiler (syntax/compile.go), which are not modelled: they
    are decided by the metamorphic run original-vs-rewritten on the implementation. *)
-From Arrai Require Import Base.Val Spec.SetAlg Eval.Interp Eval.Rewrite Proofs.EquivP Proofs.FuelP Proofs.SugarP Proofs.RelValP Proofs.CongrP Gen.Prec Sys.Prec.
+From Arrai Require Import Base.Val Spec.SetAlg Eval.Interp Eval.Rewrite Proofs.EquivP Proofs.FuelP Proofs.SugarP Proofs.RelValP Proofs.CongrP Proofs.SubstP Gen.Prec Sys.Prec.
 
 Theorem C08_let_is_arrow :
   forall fuel rho p e1 e2,
@@ -173,3 +173,43 @@ Example C08_congruence_probe :
   Rewrite.documented e e' /\ ctx_depth C = 3%nat /\
   run_data 20 (plug C e) = Ok (VSet [vint 3]) /\ run_data 20 (plug C e') = Ok (VSet [vint 3]).
 Proof. cbv zeta. split; [constructor|]. vm_compute. repeat split. Qed.
+
+(* ---------- replacing a let-bound name by its value ---------- *)
+
+(* PARTIAL: bodies without binders (no function literal, no let, no pattern conditional - Eval/Rewrite.v: binder_free).
+   `let x = v; e` and e with the free x replaced by the literal v (Eval/Rewrite.v: subst) have one answer at
+   corresponding fuels, in every scope.  Missing: bodies with binders, where subst stops at the binders that rebind x
+   and the captured scopes of the functions created differ by the binding of x (needs a second value relation);
+   that part is checked against the implementation and the interpreter by the substitution stream only. *)
+Theorem C08_let_bound_name_replaced_by_its_value_partial :
+  forall x v n rho e, binder_free e = true ->
+    eval (S (S n)) rho (ELet (PVar x) (ELit v) e) = eval (S n) rho (subst x v e).
+Proof. exact let_literal_binder_free. Qed.
+Print Assumptions C08_let_bound_name_replaced_by_its_value_partial.
+
+(* ... also when the let is not the innermost binding (other names bound in between) *)
+Theorem C08_bound_name_replaced_under_other_bindings_partial :
+  forall x v n pre rho e, binder_free e = true -> name_in x (map fst pre) = false ->
+    eval n (pre ++ (x, D (norm v)) :: rho) e = eval n (pre ++ rho) (subst x v e).
+Proof. exact subst_binder_free. Qed.
+Print Assumptions C08_bound_name_replaced_under_other_bindings_partial.
+
+(* non-vacuity, and what subst does at binders that rebind the name (outside the partial theorem, evaluated here) *)
+Example C08_subst_probe :
+  let x := [120] in
+  let body := EBin BAdd (EVar x) (ECond [(ECmp CLt (EVar x) (ELit (vint 5)), EBin BMul (EVar x) (EVar x))] None) in
+  binder_free body = true /\
+  run_data 9 (ELet (PVar x) (ELit (vint 3)) body) = Ok (vint 12) /\ run_data 9 (subst x (vint 3) body) = Ok (vint 12) /\
+  (* let x = 3; x + (let x = x + 1; x * 10): the inner body keeps its x *)
+  subst x (vint 3) (EBin BAdd (EVar x) (ELet (PVar x) (EBin BAdd (EVar x) (ELit (vint 1))) (EBin BMul (EVar x) (ELit (vint 10))))) =
+    EBin BAdd (ELit (vint 3)) (ELet (PVar x) (EBin BAdd (ELit (vint 3)) (ELit (vint 1))) (EBin BMul (EVar x) (ELit (vint 10)))) /\
+  run_data 9 (ELet (PVar x) (ELit (vint 3)) (EBin BAdd (EVar x) (ELet (PVar x) (EBin BAdd (EVar x) (ELit (vint 1))) (EBin BMul (EVar x) (ELit (vint 10)))))) = Ok (vint 43).
+Proof. cbv zeta. vm_compute. repeat split. Qed.
+
+(* non-vacuity of the dict theorem: both disjuncts occur *)
+Example C08_dict_sugar_probe :
+  run 5 (EDictE [(ELit (vint 1), ELit (vint 2)); (ELit (vint 3), ELit (vint 4))]) =
+  run 6 (spell_dict [(ELit (vint 1), ELit (vint 2)); (ELit (vint 3), ELit (vint 4))]) /\
+  run 5 (EDictE [(ELit (vint 1), ELit (vint 2)); (ELit (vint 3), ELit (vint 4))]) =
+  Ok (D (VSet [ventry (vint 1) (vint 2); ventry (vint 3) (vint 4)])).
+Proof. vm_compute. split; reflexivity. Qed.
